@@ -107,21 +107,26 @@ impl AssignAddTransform {
             SimpleAssignTarget::SuperProp(super_prop) => Some(SimpleAssignTarget::SuperProp(
                 Self::hoist_super_target(super_prop, hoisted, opv, span),
             )),
-            // `(o().p) += x`: the parentheses around a target carry no meaning
+            // `(o().p) += x`: the target is what the parentheses hold; one pair is kept around it,
+            // `(let[k]) += x` must not come out as `let[k] = ...`, which declares
             SimpleAssignTarget::Paren(paren) => {
                 let mut inner = &*paren.expr;
                 while let Expr::Paren(inner_paren) = inner {
                     inner = &*inner_paren.expr;
                 }
-                match inner {
-                    Expr::Member(member) => Some(SimpleAssignTarget::Member(Self::hoist_target(
-                        member, hoisted, opv, span,
-                    ))),
-                    Expr::SuperProp(super_prop) => Some(SimpleAssignTarget::SuperProp(
-                        Self::hoist_super_target(super_prop, hoisted, opv, span),
-                    )),
-                    _ => None,
-                }
+                let target = match inner {
+                    Expr::Member(member) => {
+                        Expr::Member(Self::hoist_target(member, hoisted, opv, span))
+                    }
+                    Expr::SuperProp(super_prop) => {
+                        Expr::SuperProp(Self::hoist_super_target(super_prop, hoisted, opv, span))
+                    }
+                    _ => return None,
+                };
+                Some(SimpleAssignTarget::Paren(ParenExpr {
+                    span: paren.span,
+                    expr: Box::new(target),
+                }))
             }
             _ => None,
         }
